@@ -11,6 +11,7 @@ import MpirProofs.Lemmas.AliasMul
 import MpirProofs.Lemmas.AliasGcdext
 import MpirProofs.Props.C07_gcdextdc2
 import MpirProofs.Lemmas.AliasMpfDiv
+import MpirProofs.Lemmas.AliasMpf2
 import MpirProofs.Lemmas.AliasPowm
 namespace Mpir.AliasMem
 open Mpir
@@ -206,6 +207,55 @@ example : errOfF (mpf_div 0 1 2 fs1) = "div0" := by decide
 -- negative examples: `copy_u` without `|| rp == up` (the seeded defect C05_c_2: "u is chopped anyway"), r = u; no copy of v, r = v
 example : errOfF (mpf_divV { copyUIfOverlap := false } 0 0 1 fs1) = "ub:mpn_tdiv_qr operands overlap" := by decide +kernel
 example : errOfF (mpf_divV { copyV := false } 1 0 1 fs1) = "ub:mpn_tdiv_qr operands overlap" := by decide +kernel
+
+/-! ## mpf_mul, mpf_sqrt, mpf_div_ui with raw-precision operands -/
+
+/-- mpf_mul (mpf/mul.c), every choice of r, u, v, operands of any length: r holds exactly `Mpf.mul (PREC r) u v` of the operands
+    before the call.  The product of the (at most PREC) top limbs of each operand is formed in TMP space (:68-71: mpn_mul
+    does not allow the product to overlap a factor, and r has only PREC + 1 limbs) and its top limbs copied to r (:76-82);
+    `u->_mp_exp`, `v->_mp_exp` are read in the statement that stores `r->_mp_exp` (:83), before `r->_mp_size` (:84). -/
+theorem mpf_mul_ptr_spec {s : FSt} (h : FInv s) {r u v : Nat} (hr : r < s.st.nv) (hu : u < s.st.nv) (hv : v < s.st.nv) :
+    ∃ s', mpf_mul r u v s = .ok s' ∧ FInv s' ∧ s'.st.nv = s.st.nv ∧ s'.F r = Mpf.mul (s.prec r) (s.F u) (s.F v) ∧
+      ∀ i, i < s.st.nv → i ≠ r → s'.F i = s.F i :=
+  mpf_mul_ok h hr hu hv
+
+/-- mpf_sqrt (mpf/sqrt.c), r = u or not, u ≥ 0, operands of any length: `usize`, `uexp`, `up` are cached in locals (:63,
+    :75-77) BEFORE `r->_mp_size`, `r->_mp_exp` are stored (:81-82) — with r = u the header of u is gone afterwards —, the
+    2 PREC or 2 PREC - 1 top limbs (or the padded operand) go to TMP space, mpn_sqrtrem writes the root into r.
+    `1 ≤ PREC (r)`: the library never makes a smaller precision (`__GMPF_BITS_TO_PREC ≥ 2`). -/
+theorem mpf_sqrt_ptr_spec {s : FSt} (h : FInv s) {r u : Nat} (hr : r < s.st.nv) (hu : u < s.st.nv) (hu0 : 0 ≤ s.st.size u)
+    (hp : 1 ≤ s.prec r) :
+    ∃ s' f, mpf_sqrt r u s = .ok s' ∧ Mpf.sqrt (s.prec r) (s.F u) = .ok f ∧
+      FInv s' ∧ s'.st.nv = s.st.nv ∧ s'.F r = f ∧ ∀ i, i < s.st.nv → i ≠ r → s'.F i = s.F i :=
+  mpf_sqrt_ok h hr hu hu0 hp
+
+/-- mpf_div_ui (mpf/div_ui.c), r = u or not, 0 < v < 2^64: the dividend is moved to TMP space (:75-91), mpn_divmod_1 writes
+    the PREC + 1 quotient limbs into r (:93), `u->_mp_exp` is read afterwards (:97: limbs only have been written). -/
+theorem mpf_div_ui_ptr_spec {s : FSt} (h : FInv s) {r u : Nat} (hr : r < s.st.nv) (hu : u < s.st.nv) {v : Nat} (hv : 0 < v)
+    (hvB : v < B) :
+    ∃ s' f, mpf_div_ui r u v s = .ok s' ∧ Mpf.div_ui (s.prec r) (s.F u) v = .ok f ∧
+      FInv s' ∧ s'.st.nv = s.st.nv ∧ s'.F r = f ∧ ∀ i, i < s.st.nv → i ≠ r → s'.F i = s.F i :=
+  mpf_div_ui_ok h hr hu hv hvB
+
+theorem mpf_sqrt_div_ui_exceptions (s : FSt) (r u : Nat) :
+    (s.st.size u < 0 → mpf_sqrt r u s = .error "sqrtneg") ∧ mpf_div_ui r u 0 s = .error "div0" :=
+  ⟨fun hneg => (mpf_sqrt_neg hneg).1, mpf_div_ui_zero.1⟩
+
+-- r = u in place on operands longer than PREC + 1 (precision 2, four resp. five limbs)
+example : lookF (mpf_mul 0 0 1 (ofFs [⟨2, 4, 3, [5, 6, 7, 8]⟩, ⟨2, -1, 1, [3]⟩])) 2 = .ok [⟨2, -2, 3, [21, 24]⟩, ⟨2, -1, 1, [3]⟩] := by
+  decide +kernel
+example : lookF (mpf_mul 0 0 0 (ofFs [⟨2, 4, 3, [5, 6, 7, 2 ^ 63]⟩])) 1 = .ok [⟨2, 3, 6, [0, 7, 2 ^ 62]⟩] := by decide +kernel
+example : lookF (mpf_sqrt 0 0 (ofFs [⟨2, 5, 3, [5, 6, 7, 8, 9]⟩])) 1 = .ok [⟨2, 2, 2, [1, 3]⟩] := by decide +kernel
+example : lookF (mpf_div_ui 0 0 3 (ofFs [⟨2, -5, 3, [5, 6, 7, 8, 9]⟩])) 1 = .ok [⟨2, -3, 3, [12297829382473034413, 2, 3]⟩] := by
+  decide +kernel
+-- negative examples: the product formed in r's block (r = u: overlap; r distinct: 2 PREC limbs do not fit PREC + 1); u's size
+-- re-read after r's header was stored (r = u: a different root); the long dividend divided where it is (r = u)
+example : errOfF (mpf_mulV { productInTmp := false } 0 0 1 (ofFs [⟨2, 4, 3, [5, 6, 7, 8]⟩, ⟨2, -1, 1, [3]⟩])) =
+    "ub:mpn_mul product overlaps a factor" := by decide +kernel
+example : lookF (mpf_sqrtV { sqrtLocals := false } 0 0 (ofFs [⟨2, 5, 3, [5, 6, 7, 8, 9]⟩])) 1 ≠
+    lookF (mpf_sqrt 0 0 (ofFs [⟨2, 5, 3, [5, 6, 7, 8, 9]⟩])) 1 := by decide +kernel
+example : errOfF (mpf_div_uiV { dividendInTmp := false } 0 0 3 (ofFs [⟨2, -5, 3, [5, 6, 7, 8, 9]⟩])) =
+    "ub:mpn_divrem_1 quotient overlaps the dividend at an offset" := by decide +kernel
 
 /-! ## mpz_powm, mpz_powm_ui -/
 
